@@ -123,7 +123,17 @@ def serialise(prog, tape=None):
     splits = []
     for op in prog:
         for tok in tokens_of(op, tape):
+            if tape is not None and tape.coin(4, 100, "cs.comment"):
+                # a comment is white space; so are the blanks inside it, where the content may be divided as well
+                text = tape.pick([b"% a b c", b"%  BT (x) Tj ET", b"% 0 0 Td /F1 9 Tf", b"%%EOF ", b"% ) ] >>"], "cs.comment.text")
+                base = len(out)
+                out += text + tape.pick([b"\n", b"\r\n", b"\r"], "cs.comment.eol")
+                splits += [base + i + 1 for i, c in enumerate(text) if c == 0x20]
+            base = len(out)
             out += tok
+            if tape is not None and tok[:1] == b"(":
+                # blanks inside a literal string: the bytes of the streams are simply joined, so a division there is harmless
+                splits += [base + i + d for i, c in enumerate(tok) if c == 0x20 for d in (0, 1)]
             splits.append(len(out))  # between the token and the white space that follows it
             if tape is None:
                 out += b" "
